@@ -158,11 +158,17 @@ outer:
 	p.emit(EOF{})
 	verifHook("run.close")
 	close(p.sequences)
-	p.closed <- true
+	close(p.closed)
 }
 
+// Close asks the parser to stop after the next character it reads. It may be
+// called more than once
 func (p *Parser) Close() {
-	p.close <- true
+	select {
+	case p.close <- true:
+	default:
+		// already requested
+	}
 }
 
 func (p *Parser) WaitClose() {
